@@ -27,8 +27,14 @@ RULE = ('interp (check): d in 1..3, axis lengths 1..6, uniform / non-uniform dya
         'point} on uniform (also nodes_on_bdry) and non-uniform grids with axis lengths 1..6; sampling_tensor: lists '
         'of callables/constants and tuple-valued callables through sampling_function with shaped out_dtype; resample '
         '(rcheck): Resampling(dom, ran, per-axis interp) of a sampled callable (with/without out=); deform: '
-        'linear_deform with displacement fields (point-array convention). Non-trivial = values not all equal; '
-        'distinct by the full input tuple.')
+        'linear_deform with displacement fields (point-array convention). Memory layout: in >= 2 dimensions (mostly '
+        'pairwise distinct axis lengths, non-symmetric data) the value array is C-ordered, Fortran-ordered, a '
+        'transposed view, a strided view or a negative-stride view, and Resampling / linear_deform get elements '
+        'created with order=C/F. history (scheck per step): ONE odl.util.vectorize-wrapped callable used 3-5 times '
+        'in a row -- direct call at an integer point (integer result), direct call at a float point, '
+        'space.element / mesh out= / point array on float64/float32 spaces, and a parametrised callable sampled '
+        'with real c, then c=a+bj on a complex space, then real again -- every step compared with point-wise '
+        'evaluation. Non-trivial = values not all equal; distinct by the full input tuple.')
 ASSUMPTIONS = [
     'exact arithmetic: coordinates/values are small integers or dyadic rationals so float operations are exact '
     '(non-dyadic spacings compared with tolerance 1e-12 and without tie points); rounding, overflow, NaN inputs are '
@@ -110,6 +116,32 @@ def gen_coord(rng, c, ties=True):
 
 DTYPES = ['float64', 'float64', 'float64', 'float32', 'complex128', 'int64', 'str']
 
+LAYOUTS = ['C', 'F', 'transposed', 'strided', 'negstride']
+LAYOUT_SRC = '''
+def relayout(f, layout):
+    """The same array (shape, dtype, values) with another memory layout: C order, Fortran order, a
+    transposed view of a C array, a strided view (every second entry of a larger buffer) or a view with
+    negative strides.  Interpolation must not depend on it."""
+    import numpy as np
+    f = np.asarray(f)
+    if layout == 'F':
+        g = np.asfortranarray(f)
+    elif layout == 'transposed':
+        g = np.ascontiguousarray(f.transpose()).transpose()
+    elif layout == 'strided':
+        big = np.zeros(tuple(2 * n for n in f.shape), dtype=f.dtype)
+        g = big[tuple(slice(None, None, 2) for _ in f.shape)]
+        g[...] = f
+    elif layout == 'negstride':
+        g = np.ascontiguousarray(f[tuple(slice(None, None, -1) for _ in f.shape)])[
+            tuple(slice(None, None, -1) for _ in f.shape)]
+    else:
+        g = np.ascontiguousarray(f)
+    assert g.shape == f.shape and g.dtype == f.dtype and bool(np.all(g == f))
+    return g
+'''
+exec(LAYOUT_SRC)
+
 
 def measure_variants():
     """Which of the two recorded defects the current code exhibits (model variant switches)."""
@@ -131,7 +163,7 @@ def measure_variants():
     return int_raises, mesh1_raises
 
 
-def run_interp(kind, schemes, cvs, dtype, vals_re, vals_im, conv, pts, mesh, use_out):
+def run_interp(kind, schemes, cvs, dtype, vals_re, vals_im, conv, pts, mesh, use_out, layout='C'):
     """Run the implementation; returns the Coq term of type outc and a python summary."""
     from odl.discr.discr_utils import nearest_interpolator, linear_interpolator, per_axis_interpolator
     from odl.discr.grid import sparse_meshgrid
@@ -143,6 +175,7 @@ def run_interp(kind, schemes, cvs, dtype, vals_re, vals_im, conv, pts, mesh, use
         f = (np.array(vals_re) + 1j * np.array(vals_im)).reshape(shape)
     else:
         f = np.array(vals_re).astype(dtype).reshape(shape)
+    f = relayout(f, layout)
     cv = [np.array(c) for c in cvs]
     if kind == 'nearest':
         itp = nearest_interpolator(f, cv)
@@ -225,8 +258,11 @@ def interp_cases(rng, tier, variants):
         d = rng.choice([1, 1, 2, 2, 3])
         dtype = rng.choice(DTYPES)
         dyadic = dtype in ('float32', 'complex128') or rng.random() < 0.8
-        maxn = {1: 6, 2: 4, 3: 3}[d]
+        maxn = {1: 6, 2: 5, 3: 4}[d]
         shape = [1 if rng.random() < 0.06 else rng.randint(2, maxn) for _ in range(d)]
+        if d > 1 and rng.random() < 0.6:
+            shape = rng.sample(range(2, maxn + 1), d)          # pairwise distinct axis lengths
+        layout = 'C' if d == 1 else rng.choice(LAYOUTS)
         cvs = [gen_cvec(rng, n, dyadic) for n in shape]
         kind = rng.choice(['nearest', 'linear', 'per_axis', 'per_axis'])
         if dtype in ('int64', 'str') and rng.random() < 0.7:
@@ -270,12 +306,12 @@ def interp_cases(rng, tier, variants):
             if use_out == 'badshape':
                 osh = osh[:-1] + [osh[-1] + 1]
             outarg = (osh, use_out != 'baddtype')
-        out, summ = run_interp(kind, schemes, cvs, dtype, vre, vim, conv, pts, mesh, use_out)
+        out, summ = run_interp(kind, schemes, cvs, dtype, vre, vim, conv, pts, mesh, use_out, layout)
         term = case_term(kind, schemes, cvs, dtype, vre, vim, conv, pts, mesh, variants, out, outarg)
         desc = {'kind': kind, 'schemes': schemes, 'cvs': cvs, 'dtype': dtype, 'values': vre, 'imag': vim,
-                'conv': conv, 'points': pts, 'mesh': mesh, 'out_arg': use_out, 'branches': branches,
+                'layout': layout, 'conv': conv, 'points': pts, 'mesh': mesh, 'out_arg': use_out, 'branches': branches,
                 'impl': summ if isinstance(summ, str) else 'values'}
-        key = (kind, tuple(schemes), str(cvs), dtype, tuple(vre), tuple(vim), conv, str(pts), str(mesh), use_out)
+        key = (kind, tuple(schemes), str(cvs), dtype, tuple(vre), tuple(vim), conv, str(pts), str(mesh), use_out, layout)
         cs.add(term, desc, key if len(set(vre)) > 1 else None)
     return cs
 
@@ -587,6 +623,157 @@ def tensor_sampling_cases(rng, tier):
     return cs
 
 
+# ---- call histories on ONE wrapped callable (state kept by the vectorisation wrapper)
+def gen_ex_int(rng, d, depth):
+    """Integer-valued on integer points: coordinates, integer constants, + - *, step."""
+    if depth == 0 or rng.random() < 0.25:
+        if rng.random() < 0.75:
+            return Ex('coord', rng.randrange(d))
+        return Ex('const', float(rng.randint(-3, 3)))
+    op = rng.choice(['add', 'sub', 'mul', 'add', 'step'])
+    if op == 'step':
+        return Ex('step', rng.randrange(d), rng.randint(-2, 6) * 0.5, gen_ex_int(rng, d, depth - 1),
+                  gen_ex_int(rng, d, depth - 1))
+    return Ex(op, gen_ex_int(rng, d, depth - 1), gen_ex_int(rng, d, depth - 1))
+
+
+def int_src(ex, xname='x'):
+    """Scalar Python source with integral constants written as int literals (so that the callable returns
+    a Python int at integer points and a float elsewhere)."""
+    import re
+    return re.sub(r'(?<![\w.])(-?\d+)\.0(?![\d])', r'\1', ex.src(False, xname))
+
+
+HISTORY_SRC = '''
+def run_history(f, steps):
+    """Evaluate ONE callable f through a sequence of calls; returns the list of results (flat complex lists).
+    steps: ('point', coords) direct call of f at one point | ('sample', space, mode, kwargs) sampling on a space."""
+    import numpy as np
+    res = []
+    for st in steps:
+        if st[0] == 'point':
+            p = st[1]
+            r = f(p[0] if len(p) == 1 else list(p), **st[2])
+            res.append([complex(v) for v in np.asarray(r).ravel()])
+        else:
+            _, space, mode, kw = st
+            if mode == 'element':
+                a = space.element(f, **kw).asarray()
+            else:
+                from odl.discr.discr_utils import sampling_function, point_collocation
+                func = sampling_function(f, space.domain, out_dtype=space.dtype)
+                if mode == 'mesh-out':
+                    a = np.full(space.shape, np.nan, dtype=space.dtype)
+                    point_collocation(func, space.meshgrid, out=a, **kw)
+                else:
+                    a = np.asarray(func(space.points().T, **kw)).reshape(space.shape)
+            res.append([complex(v) for v in np.asarray(a).ravel()])
+    return res
+'''
+exec(HISTORY_SRC)
+
+
+def gen_history(rng, d):
+    """Source text defining the wrapped callable `f`, the spaces and `steps`; plus, per step, the data the
+    Coq check needs (grid, expressions for real and imaginary part)."""
+    variant = rng.choice(['int-first', 'int-first', 'param'])
+    lines = ['import numpy as np, odl, warnings', 'warnings.simplefilter("ignore")']
+    coq = []                                  # (cvs, ex_re, ex_im, cplx)
+    zero = Ex('const', 0.0)
+    if variant == 'int-first':
+        ex = gen_ex_int(rng, d, rng.choice([1, 2, 3]))
+        if not ex.coords():
+            ex = Ex('add', ex, Ex('coord', 0))
+        # `x[0] * 0 +` makes the result an int at integer points and a float at every float point, so that no
+        # single call mixes int and float results (that case is the recorded finding
+        # vectorize-int-first-result-truncates, a property of np.vectorize's dtype inference, probed separately)
+        lines.append('@odl.util.vectorize\ndef f(x):\n    return x[0] * 0 + (%s)' % int_src(ex))
+        steps = []
+        nspace = 0
+        plan = ['point-int'] + [rng.choice(['sample', 'sample', 'point-float', 'point-int'])
+                                for _ in range(rng.randint(1, 3))] + ['sample']
+        if rng.random() < 0.3:
+            plan = ['sample', 'point-int', 'sample']          # float first, then an integer point, then float again
+        for what in plan:
+            if what.startswith('point'):
+                p = [float(rng.randint(0, 3)) for _ in range(d)] if what == 'point-int' else \
+                    [rng.randint(0, 12) * 0.25 + 0.125 for _ in range(d)]
+                arg = [int(v) for v in p] if what == 'point-int' else p
+                steps.append("('point', %r, {})" % (arg,))
+                coq.append(([[v] for v in p], ex, zero, False))
+            else:
+                dtype = rng.choice(['float64', 'float64', 'float32'])
+                sp, spsrc = make_space(rng, d, dtype)
+                name = 'space%d' % nspace
+                nspace += 1
+                lines.append(spsrc.replace('space = ', '%s = ' % name).replace('space.', '%s.' % name))
+                steps.append("('sample', %s, %r, {})" % (name, rng.choice(['element', 'element', 'mesh-out', 'array'])))
+                coq.append(([c.tolist() for c in sp.grid.coord_vectors], ex, zero, False))
+    else:
+        ex = gen_ex(rng, d, rng.choice([1, 2]), None)
+        if not ex.coords():
+            ex = Ex('add', ex, Ex('coord', 0))
+        lines.append('@odl.util.vectorize\ndef f(x, c=1.0):\n    return (%s) * c' % ex.src(False))
+        steps = []
+        plan = ['real', 'complex', 'real'] if rng.random() < 0.6 else ['complex', 'real', 'complex']
+        for i, what in enumerate(plan):
+            dtype = 'complex128' if what == 'complex' else rng.choice(['float64', 'float32'])
+            sp, spsrc = make_space(rng, d, dtype)
+            name = 'space%d' % i
+            lines.append(spsrc.replace('space = ', '%s = ' % name).replace('space.', '%s.' % name))
+            if what == 'complex':
+                a, b = float(rng.randint(-2, 2)), float(rng.choice([-2, -1, 1, 2]))
+                kw = '{"c": complex(%r, %r)}' % (a, b)
+            else:
+                a, b = rng.choice([1.0, 2.0, 0.5, -1.0]), 0.0
+                kw = '{}' if a == 1.0 else '{"c": %r}' % a
+            steps.append("('sample', %s, %r, %s)" % (name, rng.choice(['element', 'element', 'mesh-out', 'array']), kw))
+            coq.append(([c.tolist() for c in sp.grid.coord_vectors], Ex('mul', ex, Ex('const', a)),
+                        Ex('mul', ex, Ex('const', b)), what == 'complex'))
+    lines.append('steps = [%s]' % ', '.join(steps))
+    return variant, '\n'.join(lines) + '\n', coq
+
+
+def history_cases(rng, tier):
+    """The same wrapped callable used several times: every result must be the callable's values, whatever
+    was evaluated before (one scase per step)."""
+    cs = C.CaseSet('history', ['C15.Syntax', 'C15.Model', 'C15.Call', 'C15.Corr'], 'scheck', 'scase')
+    n_hist = 40 if tier == 'quick' else 300
+    for it in range(n_hist):
+        d = rng.choice([1, 2, 2, 3])
+        variant, src, coq = gen_history(rng, d)
+        env = {}
+        err = None
+        with warnings.catch_warnings():
+            warnings.simplefilter('ignore')
+            try:
+                exec(src, env)
+                results = run_history(env['f'], env['steps'])
+            except Exception as e:
+                results, err = [[] for _ in coq], '%s: %s' % (type(e).__name__, str(e)[:200])
+        for k, ((cvs, ex_re, ex_im, cplx), vals) in enumerate(zip(coq, results)):
+            term = ('{| s_cvs := %s; s_re := %s; s_im := %s; s_cplx := %s; s_out_re := %s; s_out_im := %s |}'
+                    % (C.qss(cvs), ex_re.coq(), ex_im.coq(), C.b(cplx), C.qs([v.real for v in vals]),
+                       C.qs([v.imag for v in vals]) if cplx else '[]'))
+            desc = {'family': 'history', 'variant': variant, 'step': k, 'source': src, 'error': err,
+                    'scalar_re': ex_re.src(False, 'p'), 'scalar_im': ex_im.src(False, 'p'),
+                    'replay': _history_snippet(src, coq) if k == 0 else None, 'first': len(cs.cases) - k}
+            cs.add(term, desc, ('history', src, k) if len(set(vals)) > 1 or len(vals) == 1 else None)
+    return cs
+
+
+def _history_snippet(src, coq):
+    """Self-contained replay: run the history, compare every step with a plain Python loop over the points."""
+    exp = []
+    for cvs, ex_re, ex_im, cplx in coq:
+        exp.append('[complex(%s, %s) for p in itertools.product(*%r)]'
+                   % (ex_re.src(False, 'p'), ex_im.src(False, 'p') if cplx else '0.0', cvs))
+    return ('import itertools\n' + HISTORY_SRC + src + 'observed = run_history(f, steps)\n'
+            'expected = [%s]\n' % ',\n            '.join(exp) +
+            'ok = len(observed) == len(expected) and all(len(a) == len(b) and all(abs(u - v) <= 1e-6 * (1 + abs(v)) '
+            'for u, v in zip(a, b)) for a, b in zip(observed, expected))\n')
+
+
 def resample_cases(rng, tier, variants):
     """Resampling(domain, range, interp)(domain.element(callable)) and linear_deform."""
     import odl
@@ -594,9 +781,12 @@ def resample_cases(rng, tier, variants):
     cs2 = C.CaseSet('deform', ['C15.Syntax', 'C15.Model', 'C15.Call', 'C15.Corr'], 'check', 'case')
     n_cases = 120 if tier == 'quick' else 800
     for it in range(n_cases):
-        d = rng.choice([1, 1, 2, 2, 3])
-        maxn = {1: 6, 2: 4, 3: 3}[d]
+        d = rng.choice([1, 2, 2, 3])
+        maxn = {1: 6, 2: 5, 3: 4}[d]
         shape = [rng.randint(2, maxn) for _ in range(d)]
+        if d > 1 and rng.random() < 0.7:
+            shape = rng.sample(range(2, maxn + 1), d)          # pairwise distinct axis lengths
+        order = rng.choice([None, 'C', 'F', 'F']) if d > 1 else None     # memory layout of the element
         def oddpart(m):
             while m % 2 == 0:
                 m //= 2
@@ -619,7 +809,7 @@ def resample_cases(rng, tier, variants):
         exec(make_callable_src('vec', ex, None, False, d), env)
         use_out = rng.random() < 0.3
         try:
-            x = dom.element(env['f'])
+            x = dom.element(env['f'], order=order)
             op = odl.Resampling(dom, ran, interp)
             if use_out:
                 y = ran.element(np.full(shape2, np.nan))
@@ -637,12 +827,13 @@ def resample_cases(rng, tier, variants):
                 % (C.qss(cvs), ex.coq(), C.lst([SCH[s] for s in schemes]), C.qss(mesh),
                    C.qs(np.asarray(y).ravel().tolist())))
         cs.add(term, {'op': 'Resampling', 'domain': [lo, hi, shape], 'range_shape': shape2, 'interp': interp,
-                      'callable': ex.src(True), 'out_arg': use_out, 'schemes': schemes, 'family': 'resample'},
-               ('res', str(lo), str(hi), tuple(shape), tuple(shape2), str(interp), ex.src(True)))
+                      'callable': ex.src(True), 'out_arg': use_out, 'schemes': schemes, 'family': 'resample',
+                      'order': order},
+               ('res', str(lo), str(hi), tuple(shape), tuple(shape2), str(interp), ex.src(True), order))
         # linear_deform: template values at points + displacement (point-array convention)
         from odl.deform import linear_deform
         vals = [float(rng.randint(-9, 9)) for _ in range(int(np.prod(shape)))]
-        templ = dom.element(np.array(vals).reshape(shape))
+        templ = dom.element(np.array(vals).reshape(shape), order=order)
         disp = [np.array([rng.choice([0.0, 0.0, 0.25, -0.25, 0.5, -0.5, 1.0, -1.5, 2.0]) * side[k]
                           for _ in range(int(np.prod(shape)))]).reshape(shape) for k in range(d)]
         dfield = dom.tangent_bundle.element(disp)
@@ -660,16 +851,16 @@ def resample_cases(rng, tier, variants):
         term2 = case_term('per_axis', schemes, cvs, 'float64', vals, [], 'array', pts, [], variants, out)
         cs2.add(term2, {'op': 'linear_deform', 'domain': [lo, hi, shape], 'interp': interp, 'values': vals,
                         'out_arg': use_out2, 'kind': 'per_axis', 'schemes': schemes, 'cvs': cvs, 'dtype': 'float64',
-                        'imag': [], 'conv': 'array', 'points': pts, 'mesh': [], 'via_deform': True,
+                        'imag': [], 'conv': 'array', 'points': pts, 'mesh': [], 'via_deform': True, 'order': order,
                         'displacement': [dk.ravel().tolist() for dk in disp]},
-                ('deform', str(lo), str(hi), tuple(shape), str(interp), tuple(vals), str(pts)))
+                ('deform', str(lo), str(hi), tuple(shape), str(interp), tuple(vals), str(pts), order))
     return [cs, cs2]
 
 
 def correspondence(rng, tier):
     variants = measure_variants()
-    return ([interp_cases(rng, tier, variants), sampling_cases(rng, tier), tensor_sampling_cases(rng, tier)]
-            + resample_cases(rng, tier, variants))
+    return ([interp_cases(rng, tier, variants), sampling_cases(rng, tier), tensor_sampling_cases(rng, tier),
+             history_cases(rng, tier)] + resample_cases(rng, tier, variants))
 
 
 # ------------------------------------------------------------------- probes
@@ -750,6 +941,13 @@ def _rand_values(rng, shape, dtype):
                                                    tuple(shape))
 
 
+def _probe_shape(rng, d):
+    maxn = {1: 6, 2: 5, 3: 4}[d]
+    if d > 1 and rng.random() < 0.7:
+        return rng.sample(range(2, maxn + 1), d)              # pairwise distinct axis lengths
+    return [rng.randint(2, maxn) for _ in range(d)]
+
+
 def probes(rng, tier):
     out = []
     reps = 1 if tier == 'quick' else 5
@@ -762,12 +960,13 @@ def probes(rng, tier):
                 for dtype in ('float64', 'float32', 'complex128', 'int64', 'str'):
                     if dtype in ('int64', 'str') and kind != 'nearest':
                         continue          # arithmetic on the values: only 'nearest' is defined for these
-                    shape = [rng.randint(2, {1: 6, 2: 4, 3: 3}[d]) for _ in range(d)]
+                    shape = _probe_shape(rng, d)
                     cvs = [gen_cvec(rng, n) for n in shape]
                     schemes = [rng.choice(['nearest', 'linear']) for _ in range(d)]
                     for conv in ('single', 'array', 'mesh'):
-                        snip = REF + ('cvs = %r\nf = %s\nitp = make(%r, %r, f, cvs)\n' % (
-                            cvs, _rand_values(rng, shape, dtype), kind, schemes))
+                        layout = 'C' if d == 1 else rng.choice(LAYOUTS)
+                        snip = REF + LAYOUT_SRC + ('cvs = %r\nf = relayout(%s, %r)\nitp = make(%r, %r, f, cvs)\n' % (
+                            cvs, _rand_values(rng, shape, dtype), layout, kind, schemes))
                         if conv == 'mesh':
                             snip += ('got = np.asarray(itp(sparse_meshgrid(*[np.array(c) for c in cvs])))\n'
                                      'observed = got.tolist(); expected = f.tolist()\n'
@@ -783,8 +982,8 @@ def probes(rng, tier):
                                      'observed = call(itp, %r, pts, %d); expected = [complex(v) for v in f.ravel()]\n'
                                      'ok = observed == expected\n' % (conv, d))
                         _probe(out, 'node-%s-%s-%s' % (kind, dtype, conv),
-                               '%s interpolator (%s values, %d-d, %s input) reproduces the node values exactly'
-                               % (kind, dtype, d, conv), snip)
+                               '%s interpolator (%s values, %d-d, %s input, %s memory layout) reproduces the node '
+                               'values exactly' % (kind, dtype, d, conv, layout), snip)
 
     # ---- 2. values anywhere (inside, ties, outside) against the textbook rule; conventions agree
     npts = 6 if tier == 'quick' else 10
@@ -792,7 +991,8 @@ def probes(rng, tier):
         for d in (1, 2, 3):
             for kind, _m in kinds:
                 dtype = rng.choice(['float64', 'float64', 'float32', 'complex128'])
-                shape = [rng.randint(2, {1: 6, 2: 4, 3: 3}[d]) for _ in range(d)]
+                shape = _probe_shape(rng, d)
+                layout = 'C' if d == 1 else rng.choice(LAYOUTS[1:] + ['C'])
                 cvs = [gen_cvec(rng, n) for n in shape]
                 schemes = [rng.choice(['nearest', 'linear']) for _ in range(d)]
                 eff = {'nearest': ['nearest'] * d, 'linear': ['linear'] * d, 'per_axis': schemes}[kind]
@@ -800,8 +1000,9 @@ def probes(rng, tier):
                 mesh = [sorted(set(gen_coord(rng, c)[0] for _ in range(rng.randint(2, 3)))) for c in cvs]
                 if len(mesh[0]) == 1 and d > 1:
                     mesh[0].append(mesh[0][0] + 0.125)
-                snip = REF + ('cvs = %r\nf = %s\nschemes = %r\nitp = make(%r, schemes, f, cvs)\npts = %r\nmesh = %r\n'
-                              % (cvs, _rand_values(rng, shape, dtype), eff, kind, pts, mesh))
+                snip = REF + LAYOUT_SRC + (
+                    'cvs = %r\nf = relayout(%s, %r)\nschemes = %r\nitp = make(%r, schemes, f, cvs)\npts = %r\nmesh = %r\n'
+                    % (cvs, _rand_values(rng, shape, dtype), layout, eff, kind, pts, mesh))
                 snip += ('expected = [ref_interp(schemes, cvs, f, p) for p in pts]\n'
                          'a = call(itp, "array", pts, %d); b = call(itp, "single", pts, %d)\n'
                          'mp = list(itertools.product(*mesh))\n'
@@ -812,23 +1013,26 @@ def probes(rng, tier):
                          '      and close(m, [ref_interp(schemes, cvs, f, p) for p in mp], 1e-12)\n'
                          '      and m == call(itp, "array", mp, %d))\n' % (d, d, d))
                 _probe(out, 'textbook-%s-d%d' % (kind if kind != 'per_axis' else 'peraxis', d),
-                       '%s %s (%s, %d-d): closest node (right on ties) / multilinear blend / one-cell decay outside, '
-                       'identical for single points, point arrays, mesh grids and out=' % (kind, eff, dtype, d), snip)
+                       '%s %s (%s, %d-d, %s memory layout): closest node (right on ties) / multilinear blend / one-cell '
+                       'decay outside, identical for single points, point arrays, mesh grids and out='
+                       % (kind, eff, dtype, d, layout), snip)
 
     # ---- 3. linear interpolation is exact for affine functions inside the hull
     for _ in range(3 * reps):
         for d in (1, 2, 3):
             dtype = rng.choice(['float64', 'float32', 'complex128'])
-            shape = [rng.randint(2, {1: 6, 2: 4, 3: 3}[d]) for _ in range(d)]
+            shape = _probe_shape(rng, d)
             cvs = [gen_cvec(rng, n) for n in shape]
             coef = [float(rng.randint(-4, 4)) for _ in range(d + 1)]
             pts = []
             for _k in range(npts):
                 pts.append([c[0] + (c[-1] - c[0]) * rng.randint(0, 32) / 32.0 for c in cvs])
-            snip = REF + ('cvs = %r\ncoef = %r\npts = %r\n' % (cvs, coef, pts))
+            snip = REF + LAYOUT_SRC + ('cvs = %r\ncoef = %r\npts = %r\nLAYOUT = %r\n'
+                                       % (cvs, coef, pts, 'C' if d == 1 else rng.choice(LAYOUTS)))
             snip += ('aff = lambda p: coef[0] + sum(a * x for a, x in zip(coef[1:], p))\n'
                      'f = np.array([aff(p) for p in itertools.product(*cvs)]).reshape(%r).astype(%r)\n'
                      'if f.dtype.kind == "c": f = f * (1 + 2j)\n'
+                     'f = relayout(f, LAYOUT)\n'
                      'sc = (1 + 2j) if f.dtype.kind == "c" else 1\n'
                      'expected = [complex(aff(p) * sc) for p in pts]\n'
                      'observed = call(linear_interpolator(f, [np.array(c) for c in cvs]), "array", pts, %d)\n'
@@ -870,21 +1074,24 @@ def probes(rng, tier):
                'sampling a %s callable (%s, %d-d) via %s gives the callable\'s values at the grid points'
                % (flavour, dtype, d, mode), snip)
 
-    # ---- 5. operators built on the interpolators
+    # ---- 5. operators built on the interpolators (elements in C and Fortran memory order)
     for _ in range(2 * reps):
-        for d in (1, 2):
-            shape = [rng.randint(2, 4) for _ in range(d)]
-            interp = rng.choice(['nearest', 'linear'] + ([['nearest', 'linear'], ['linear', 'nearest']] if d == 2 else []))
+        for d in (1, 2, 3):
+            shape = _probe_shape(rng, d)
+            mixes = [['nearest'] * d, ['linear'] * d] + ([[rng.choice(['nearest', 'linear']) for _k in range(d)]
+                                                           for _m in range(2)] if d > 1 else [])
+            schemes = rng.choice(mixes)
+            interp = schemes[0] if len(set(schemes)) == 1 and rng.random() < 0.5 else schemes
+            order = None if d == 1 else rng.choice(['C', 'F', 'F'])
             vals = [float(rng.randint(-9, 9)) for _ in range(int(np.prod(shape)))]
-            base = ('import numpy as np, odl, warnings\nwarnings.simplefilter("ignore")\n'
-                    'space = odl.uniform_discr(%r, %r, %r)\nx = space.element(np.array(%r).reshape(%r))\n'
-                    % ([0.0] * d, [float(n) for n in shape], shape, vals, tuple(shape)))
+            base = (REF + 'space = odl.uniform_discr(%r, %r, %r)\nx = space.element(np.array(%r).reshape(%r), order=%r)\n'
+                    % ([0.0] * d, [float(n) for n in shape], shape, vals, tuple(shape), order))
             _probe(out, 'resampling-same-grid-identity',
-                   'Resampling(space, space, %r) is the identity (node reproduction)' % (interp,),
+                   'Resampling(space, space, %r) is the identity (node reproduction; element order %r)' % (interp, order),
                    base + 'observed = odl.Resampling(space, space, %r)(x).asarray()\nexpected = x.asarray()\n'
                           'ok = bool(np.all(observed == expected))\n' % (interp,))
             _probe(out, 'linear-deform-zero-displacement',
-                   'linear_deform with zero displacement returns the template (%r)' % (interp,),
+                   'linear_deform with zero displacement returns the template (%r, element order %r)' % (interp, order),
                    base + 'from odl.deform import linear_deform\n'
                           'observed = linear_deform(x, space.tangent_bundle.zero(), interp=%r)\nexpected = x.asarray()\n'
                           'ok = bool(np.all(observed == expected))\n' % (interp,))
@@ -893,6 +1100,30 @@ def probes(rng, tier):
                    base + 'op = odl.Resampling(space, space, %r)\ny = space.element(np.full(%r, np.nan))\n'
                           'op(x, out=y)\nobserved = y.asarray(); expected = x.asarray()\n'
                           'ok = bool(np.all(observed == expected))\n' % (interp, tuple(shape)))
+            # onto another grid / with a displacement: against the textbook reference
+            shape2 = [rng.choice([m for m in (1, 2, 3, 4, 6, 8) if not (k == 0 and m == 1 and d > 1)]) for k in range(d)]
+            _probe(out, 'resampling-textbook-%s' % ('order-%s' % order if order else '1d'),
+                   'Resampling onto shape %r with %r (element order %r) equals the textbook interpolation of the '
+                   'element at the target grid points' % (shape2, interp, order),
+                   base + 'ran = odl.uniform_discr(%r, %r, %r)\n'
+                          'observed = [complex(v) for v in odl.Resampling(space, ran, %r)(x).asarray().ravel()]\n'
+                          'cvs = [c.tolist() for c in space.grid.coord_vectors]\n'
+                          'expected = [ref_interp(%r, cvs, x.asarray(), p) for p in ran.points()]\n'
+                          'ok = close(observed, expected, 1e-12)\n'
+                   % ([0.0] * d, [float(n) for n in shape], shape2, interp, schemes))
+            disp = [[rng.choice([0.0, 0.25, -0.25, 0.5, -0.5, 1.0, -1.5]) for _k in range(int(np.prod(shape)))]
+                    for _a in range(d)]
+            _probe(out, 'linear-deform-textbook-%s' % ('order-%s' % order if order else '1d'),
+                   'linear_deform (%r, template order %r) equals the textbook interpolation of the template at the '
+                   'displaced points' % (interp, order),
+                   base + 'from odl.deform import linear_deform\n'
+                          'disp = space.tangent_bundle.element([np.array(v).reshape(%r) for v in %r])\n'
+                          'observed = [complex(v) for v in np.asarray(linear_deform(x, disp, interp=%r)).ravel()]\n'
+                          'cvs = [c.tolist() for c in space.grid.coord_vectors]\n'
+                          'pts = (space.points() + np.stack([np.array(v) for v in %r], axis=1)).tolist()\n'
+                          'expected = [ref_interp(%r, cvs, x.asarray(), p) for p in pts]\n'
+                          'ok = close(observed, expected, 1e-12)\n'
+                   % (tuple(shape), disp, interp, disp, schemes))
 
     # ---- 6. the recorded defects, probed on their own inputs
     for kind in ('nearest', 'linear', 'per_axis'):
@@ -939,6 +1170,22 @@ def probes(rng, tier):
     _probe(out, 'vectorize-direct-call', 'odl.util.vectorize-wrapped functions called with a scalar, a 1-d array, '
            'a (d, N) array and out= give the point-wise values', snip)
 
+    # ---- 6c. call histories on one vectorize-wrapped callable: earlier calls must not influence later ones
+    for _ in range(6 * reps):
+        d = rng.choice([1, 2, 2, 3])
+        variant, src, coq = gen_history(rng, d)
+        _probe(out, 'vectorize-history-%s' % variant,
+               'one odl.util.vectorize-wrapped callable used %d times in a row (%s): every result equals the '
+               'callable evaluated point by point' % (len(coq), variant), _history_snippet(src, coq))
+
+    # ---- 6d. a callable returning a Python int at the first grid point and floats elsewhere
+    snip = ('import numpy as np, odl\n'
+            '@odl.util.vectorize\ndef f(x):\n    return 0 if x[0] < 0.5 else x[0]\n'
+            'space = odl.uniform_discr(0, 1, 4)\nobserved = space.element(f).asarray().tolist()\n'
+            'expected = [float(0 if p < 0.5 else p) for p in space.points().ravel()]\nok = observed == expected\n')
+    _probe(out, 'vectorize-int-first-result-truncates',
+           'space.element of a vectorize-wrapped callable whose first grid value is a Python int', snip)
+
     # ---- 7. vector-valued callables through sampling_function (shaped out_dtype)
     for form, body in (('tuple-mixed', '(x[0] + 0.0 * x[1], 2.0, x[0] * x[1])'),
                        ('tuple-equal-partial', '(x[1], 2.0 * x[1], x[1] + 1.0)')):
@@ -974,7 +1221,8 @@ def _interp_snippet(desc):
         return None
     else:
         f = 'np.array(%r, dtype=%r).reshape(%r)' % (desc['values'], desc['dtype'], tuple(len(c) for c in desc['cvs']))
-    snip = REF + 'cvs = %r\nf = %s\nschemes = %r\nitp = make(%r, schemes, f, cvs)\n' % (desc['cvs'], f, eff, kind)
+    snip = (REF + LAYOUT_SRC + 'cvs = %r\nf = relayout(%s, %r)\nschemes = %r\nitp = make(%r, schemes, f, cvs)\n'
+            % (desc['cvs'], f, desc.get('layout', 'C'), eff, kind))
     if desc['conv'] == 'mesh':
         snip += ('mesh = %r\npts = list(itertools.product(*mesh))\n'
                  'observed = [complex(v) for v in np.asarray(itp(sparse_meshgrid(*[np.array(x) for x in mesh]))).ravel()]\n'
@@ -988,25 +1236,26 @@ def _interp_snippet(desc):
 def _resample_snippet(desc):
     lo, hi, shape = desc['domain']
     return REF + ('dom = odl.uniform_discr(%r, %r, %r); ran = odl.uniform_discr(%r, %r, %r)\n'
-                  'x = dom.element(lambda x: %s)\n'
+                  'x = dom.element(lambda x: %s, order=%r)\n'
                   'observed = [complex(v) for v in odl.Resampling(dom, ran, %r)(x).asarray().ravel()]\n'
                   'cvs = [c.tolist() for c in dom.grid.coord_vectors]\n'
                   'expected = [ref_interp(%r, cvs, x.asarray(), p) for p in ran.points()]\n'
                   'ok = close(observed, expected, 1e-12)\n'
-                  % (lo, hi, shape, lo, hi, desc['range_shape'], desc['callable'], desc['interp'], desc['schemes']))
+                  % (lo, hi, shape, lo, hi, desc['range_shape'], desc['callable'], desc.get('order'), desc['interp'],
+                     desc['schemes']))
 
 
 def _deform_snippet(desc):
     lo, hi, shape = desc['domain']
     return REF + ('from odl.deform import linear_deform\n'
-                  'dom = odl.uniform_discr(%r, %r, %r)\nt = dom.element(np.array(%r).reshape(%r))\n'
+                  'dom = odl.uniform_discr(%r, %r, %r)\nt = dom.element(np.array(%r).reshape(%r), order=%r)\n'
                   'disp = dom.tangent_bundle.element([np.array(v).reshape(%r) for v in %r])\n'
                   'observed = [complex(v) for v in np.asarray(linear_deform(t, disp, interp=%r)).ravel()]\n'
                   'cvs = [c.tolist() for c in dom.grid.coord_vectors]\n'
                   'expected = [ref_interp(%r, cvs, t.asarray(), p) for p in %r]\n'
                   'ok = close(observed, expected, 1e-12)\n'
-                  % (lo, hi, shape, desc['values'], tuple(shape), tuple(shape), desc['displacement'], desc['interp'],
-                     desc['schemes'], desc['points']))
+                  % (lo, hi, shape, desc['values'], tuple(shape), desc.get('order'), tuple(shape), desc['displacement'],
+                     desc['interp'], desc['schemes'], desc['points']))
 
 
 def search(rng, broken):
@@ -1019,6 +1268,15 @@ def search(rng, broken):
         if desc.get('family') == 'sampling':
             snip = _sampling_snippet(desc)
             key = 'sampling-%s-%s-%s' % (desc['flavour'], desc['dtype'], desc['mode'])
+        elif desc.get('family') == 'history':
+            snip = desc.get('replay')
+            if snip is None:          # stored with the first step of the same history
+                for kind2, what2, desc2 in broken:
+                    if isinstance(desc2, dict) and desc2.get('source') == desc['source'] and desc2.get('replay'):
+                        snip = desc2['replay']
+            if snip is None:
+                snip = HISTORY_SRC + desc['source'] + 'observed = run_history(f, steps)\nok = False\n'
+            key = 'vectorize-history-%s' % desc['variant']
         elif desc.get('family') == 'resample':
             snip = _resample_snippet(desc)
             key = 'resampling-textbook'
